@@ -144,6 +144,8 @@ def main():
                         bad.add("c02.eval-" + name); continue
                     if sv and not (v and vs) and not (name == "flat" and rec):
                         bad.add("c02.sound-" + name)
+                        # … rejected already in DEFAULT mode (not only for a key the type does not declare): D9 does not explain that
+                        if not v: bad.add("c02.sound-default-" + name)
                     if vs and null_free(doc) and not sv:
                         bad.add("c02.complete-" + name)
             if fresh0["ok"]:
